@@ -30,7 +30,15 @@ pub enum Env {
     /// `after_revision`: the previous revision of the text was compiled first.
     Wasm { hash_seed: u64, after_revision: bool },
     /// The real oal-cli in a fresh process; `None` = not pinned (real entropy / clock / ASLR).
-    Process { hash_seed: Option<u64>, fake_time: Option<i64>, aslr_off: bool },
+    Process {
+        hash_seed: Option<u64>,
+        fake_time: Option<i64>,
+        aslr_off: bool,
+        /// how the same configuration is named on the command line: 0 options only,
+        /// 1 `-c oal.toml`, 2 `-c sub/../oal.toml`, 3 `-c <absolute>/oal.toml`, 4 `-c link/oal.toml` (link -> .)
+        #[serde(default)]
+        spelling: u8,
+    },
 }
 
 #[derive(Serialize, Deserialize, Clone, Debug)]
@@ -81,9 +89,12 @@ fn write_tree(dir: &str, files: &BTreeMap<String, String>) -> std::io::Result<()
     Ok(())
 }
 
-fn run_process(pc: &ProcCfg, files: &BTreeMap<String, String>, hash_seed: Option<u64>, fake_time: Option<i64>, aslr_off: bool) -> Result<String, String> {
+fn run_process(pc: &ProcCfg, files: &BTreeMap<String, String>, hash_seed: Option<u64>, fake_time: Option<i64>, aslr_off: bool, spelling: u8) -> Result<String, String> {
     let dir = format!("{}/c06", pc.scratch);
     write_tree(&dir, files).map_err(|e| format!("harness: {e}"))?;
+    std::fs::write(format!("{dir}/oal.toml"), "[api]\nmain = \"main.oal\"\ntarget = \"out.yaml\"\n").map_err(|e| format!("harness: {e}"))?;
+    let _ = std::fs::create_dir_all(format!("{dir}/sub"));
+    let _ = std::os::unix::fs::symlink(".", format!("{dir}/link"));
     let mut cmd = if aslr_off {
         let mut c = std::process::Command::new("setarch");
         c.arg("-R").arg(&pc.cli);
@@ -91,7 +102,14 @@ fn run_process(pc: &ProcCfg, files: &BTreeMap<String, String>, hash_seed: Option
     } else {
         std::process::Command::new(&pc.cli)
     };
-    cmd.args(["-m", "main.oal", "-t", "out.yaml"]).current_dir(&dir);
+    match spelling {
+        1 => cmd.args(["-c", "oal.toml"]),
+        2 => cmd.args(["-c", "sub/../oal.toml"]),
+        3 => cmd.args(["-c", &format!("{dir}/oal.toml")]),
+        4 => cmd.args(["-c", "link/oal.toml"]),
+        _ => cmd.args(["-m", "main.oal", "-t", "out.yaml"]),
+    };
+    cmd.current_dir(&dir);
     if hash_seed.is_some() || fake_time.is_some() {
         cmd.env("LD_PRELOAD", &pc.shim);
     }
@@ -176,8 +194,8 @@ pub fn execute(files: &BTreeMap<String, String>, env: &Env, pc: Option<&ProcCfg>
             });
             r.unwrap_or_else(|p| Err(format!("panic: {p}")))
         }
-        Env::Process { hash_seed, fake_time, aslr_off } => match pc {
-            Some(pc) => run_process(pc, files, hash_seed, fake_time, aslr_off),
+        Env::Process { hash_seed, fake_time, aslr_off, spelling } => match pc {
+            Some(pc) => run_process(pc, files, hash_seed, fake_time, aslr_off, spelling),
             None => Err("harness: real binaries not available".into()),
         },
     }
@@ -350,13 +368,14 @@ pub fn run(seed: u64, run: u64) -> Report {
         let t0 = 1_700_000_000i64;
         let h1 = er.next_u64();
         let h2 = er.next_u64();
-        envs.push(Env::Process { hash_seed: Some(h1), fake_time: Some(t0), aslr_off: true });
-        envs.push(Env::Process { hash_seed: Some(h2), fake_time: Some(t0), aslr_off: true });
-        envs.push(Env::Process { hash_seed: Some(h2), fake_time: Some(t0 + day), aslr_off: true });
-        envs.push(Env::Process { hash_seed: None, fake_time: None, aslr_off: false });
+        let sp = |er: &mut Rng| er.below(5) as u8;
+        envs.push(Env::Process { hash_seed: Some(h1), fake_time: Some(t0), aslr_off: true, spelling: 0 });
+        envs.push(Env::Process { hash_seed: Some(h2), fake_time: Some(t0), aslr_off: true, spelling: sp(&mut er) });
+        envs.push(Env::Process { hash_seed: Some(h2), fake_time: Some(t0 + day), aslr_off: true, spelling: sp(&mut er) });
+        envs.push(Env::Process { hash_seed: None, fake_time: None, aslr_off: false, spelling: sp(&mut er) });
         if thorough {
-            envs.push(Env::Process { hash_seed: Some(er.next_u64()), fake_time: Some(t0 + 2 * day), aslr_off: true });
-            envs.push(Env::Process { hash_seed: None, fake_time: None, aslr_off: false });
+            envs.push(Env::Process { hash_seed: Some(er.next_u64()), fake_time: Some(t0 + 2 * day), aslr_off: true, spelling: sp(&mut er) });
+            envs.push(Env::Process { hash_seed: None, fake_time: None, aslr_off: false, spelling: sp(&mut er) });
         }
     }
     if files.len() == 1 {
@@ -399,6 +418,7 @@ pub fn run(seed: u64, run: u64) -> Report {
     }
     if with_proc {
         probes.push("fake_time_differs".into());
+        probes.push("config_path_spellings".into());
         probes.push("process_tier".into());
     }
     probes.sort();
